@@ -222,62 +222,76 @@ package ecs
 // ---------------------------------------------------------------------------------------------
 // C09 — bit pool and lock mask
 // ---------------------------------------------------------------------------------------------
-// Ghost view of the free list as a stack indexed from the bottom: stk[h] is the bit at height h
-// (0 <= h < available), rank[b] is the height of bit b or -1 when b is not free.
+// Ghost view: a permutation of the handed-out bits 0..length-1. stk[h] is the bit at position h,
+// rank[b] the position of bit b. Positions below `available` are the free list (a stack, top at
+// available-1, linked through bits[]); positions from `available` up hold the bits in use.
+// Keeping the bits in use in the permutation makes "a bit in use exists => available < length" a
+// direct consequence of the invariant (no counting argument is needed).
 
 //@ ghostfield bitPool.stk map[int]uint8
 //@ ghostfield bitPool.rank map[uint8]int
+//@ ghostfield bitPool.used map[uint8]bool
 
 //@ pred bitPoolInv(p *bitPool) bool =
-//@   int(p.length) <= MaskTotalBits
-//@   && (forall h int :: {p.stk[h]} 0 <= h && h < int(p.available) ==> int(p.stk[h]) < int(p.length) && p.rank[p.stk[h]] == h)
-//@   && (forall b uint8 :: {p.rank[b]} p.rank[b] >= -1 && (p.rank[b] >= 0 ==> p.rank[b] < int(p.available) && p.stk[p.rank[b]] == b))
+//@   int(p.length) <= MaskTotalBits && int(p.available) <= int(p.length)
+//@   && (forall h int :: {p.stk[h]} 0 <= h && h < int(p.length) ==> int(p.stk[h]) < int(p.length) && p.rank[p.stk[h]] == h)
+//@   && (forall b uint8 :: {p.rank[b]} int(b) < int(p.length) ==> 0 <= p.rank[b] && p.rank[b] < int(p.length) && p.stk[p.rank[b]] == b)
 //@   && (p.available > 0 ==> p.next == p.stk[int(p.available) - 1])
 //@   && (forall h int :: {p.stk[h]} 1 <= h && h < int(p.available) ==> p.bits[p.stk[h]] == p.stk[h - 1])
+//@   && (forall b uint8 :: {p.rank[b]} p.used[b] == (int(b) < int(p.length) && p.rank[b] >= int(p.available)))
 
-//@ pred bitInUse(p *bitPool, b uint8) bool = int(b) < int(p.length) && p.rank[b] < 0
+// the set of bits in use, kept as an explicit ghost set so that clients (lockMask) never look at the permutation
+//@ pred bitInUse(p *bitPool, b uint8) bool = p.used[b]
 
 //@ func bitPool.Get(p) (r)
 //@   props C09 C13
 //@   requires bitPoolInv(p)
 //@   panics_if p.available == 0 && int(p.length) >= MaskTotalBits
 //@   flag panic_clean
-//@   ghost p.rank[r] := -1
+//@   ghost p.used[r] := true
 //@   ensures bitPoolInv(p)
 //@   ensures !old(bitInUse(p, r)) && bitInUse(p, r)
-//@   ensures forall b uint8 :: b != r ==> bitInUse(p, b) == old(bitInUse(p, b))
+//@   ensures forall! b uint8 :: b != r ==> bitInUse(p, b) == old(bitInUse(p, b))
 //@   ensures old(p.available) > 0 ==> r == old(p.stk[int(p.available) - 1]) && p.available == old(p.available) - 1 && p.length == old(p.length)
 //@   ensures old(p.available) == 0 ==> int(r) == int(old(p.length)) && p.length == old(p.length) + 1 && p.available == 0
-//@   modifies p.next, p.bits, p.available, p.length, p.rank
+//@   modifies p.next, p.bits, p.available, p.length, p.rank, p.stk, p.used
 
 //@ func bitPool.getNew(p) (r)
 //@   props C09
 //@   requires bitPoolInv(p) && p.available == 0
 //@   panics_if int(p.length) >= MaskTotalBits
 //@   flag panic_clean
+//@   ghost p.stk[int(old(p.length))] := r
+//@   ghost p.rank[r] := int(old(p.length))
+//@   ghost p.used[r] := true
 //@   ensures bitPoolInv(p) && int(r) == int(old(p.length)) && p.length == old(p.length) + 1 && p.available == 0
-//@   ensures forall b uint8 :: p.rank[b] == old(p.rank[b])
-//@   modifies p.bits, p.length
+//@   ensures forall b uint8 :: b != r ==> p.rank[b] == old(p.rank[b])
+//@   ensures !old(p.used[r]) && p.used[r]
+//@   ensures forall! b uint8 :: b != r ==> p.used[b] == old(p.used[b])
+//@   modifies p.bits, p.length, p.stk, p.rank, p.used
 
 //@ func bitPool.Recycle(p, b)
 //@   props C09 C13
 //@   requires bitPoolInv(p) && bitInUse(p, b)
+//@   ghost p.stk[old(p.rank[b])] := old(p.stk[int(p.available)])
+//@   ghost p.rank[old(p.stk[int(p.available)])] := old(p.rank[b])
 //@   ghost p.stk[int(old(p.available))] := b
 //@   ghost p.rank[b] := int(old(p.available))
+//@   ghost p.used[b] := false
 //@   ensures bitPoolInv(p)
-//@   ensures !bitInUse(p, b) && p.length == old(p.length)
-//@   ensures forall c uint8 :: c != b ==> bitInUse(p, c) == old(bitInUse(p, c))
-//@   modifies p.next, p.bits, p.available, p.stk, p.rank
+//@   ensures !bitInUse(p, b) && p.length == old(p.length) && p.available == old(p.available) + 1
+//@   ensures forall! c uint8 :: c != b ==> bitInUse(p, c) == old(bitInUse(p, c))
+//@   modifies p.next, p.bits, p.available, p.stk, p.rank, p.used
 
 //@ func bitPool.Reset(p)
 //@   props C09 C15
-//@   ghost p.rank := const(-1)
+//@   ghost p.used := const(false)
 //@   ensures bitPoolInv(p) && p.length == 0 && p.available == 0
-//@   ensures forall b uint8 :: !bitInUse(p, b)
-//@   modifies p.next, p.length, p.available, p.rank
+//@   ensures forall! b uint8 :: !bitInUse(p, b)
+//@   modifies p.next, p.length, p.available, p.used
 
 //@ pred lockInv(m *lockMask) bool =
-//@   bitPoolInv(&m.bitPool) && (forall b uint8 :: {specBit(m.locks, b)} specBit(m.locks, b) == bitInUse(&m.bitPool, b))
+//@   bitPoolInv(&m.bitPool) && (forall! b uint8 :: specBit(m.locks, b) == bitInUse(&m.bitPool, b))
 
 //@ func lockMask.Lock(m) (l)
 //@   props C09
@@ -286,17 +300,17 @@ package ecs
 //@   flag panic_clean
 //@   ensures lockInv(m)
 //@   ensures specBit(m.locks, l) && !old(specBit(m.locks, l))
-//@   ensures forall b uint8 :: b != l ==> specBit(m.locks, b) == old(specBit(m.locks, b))
+//@   ensures forall! b uint8 :: b != l ==> specBit(m.locks, b) == old(specBit(m.locks, b))
 //@   modifies m.locks.bits, *(&m.bitPool)
 
 //@ func lockMask.Unlock(m, l)
 //@   props C09
-//@   requires lockInv(m)
+//@   requires lockInv(m) && validID(l)
 //@   panics_if !specBit(m.locks, l)
 //@   flag panic_clean
 //@   ensures lockInv(m)
 //@   ensures !specBit(m.locks, l)
-//@   ensures forall b uint8 :: b != l ==> specBit(m.locks, b) == old(specBit(m.locks, b))
+//@   ensures forall! b uint8 :: b != l ==> specBit(m.locks, b) == old(specBit(m.locks, b))
 //@   modifies m.locks.bits, *(&m.bitPool)
 
 //@ func lockMask.IsLocked(m) (r)
@@ -308,3 +322,158 @@ package ecs
 //@   props C09 C15
 //@   ensures lockInv(m) && maskEmpty(m.locks)
 //@   modifies m.locks.bits, *(&m.bitPool)
+
+// ---- C09: the lock rule for structural entry points ---------------------------------------------
+// A function is a structural entry point if it is exported (ecs or generic) and one of the sinks below
+// is reachable from it in the static call graph. For each of them govc proves, without any annotation
+// on the function itself: if the world is locked at entry, nothing is written to non-local memory
+// before any exit (in particular before the "locked world" panic). New or refactored entry points are
+// picked up automatically.
+
+//@ pred isLocked(w *World) bool = !maskEmpty(w.locks.locks)
+
+//@ structural ecs.entityPool.Get ecs.entityPool.Recycle ecs.entityPool.Reset
+//@   ecs.archetype.Alloc ecs.archetype.AllocN ecs.archetype.Remove ecs.archetype.Reset ecs.archetype.SetEntity
+//@   ecs.archetype.Init ecs.archetype.Activate ecs.archetype.Deactivate ecs.archetype.ExtendLayouts
+//@   ecs.archNode.CreateArchetype ecs.archNode.RemoveArchetype ecs.World.createArchetypeNode
+//@   ecs.componentRegistry.registerComponent ecs.bitSet.Set ecs.bitSet.Reset ecs.bitSet.ExtendTo
+//@   ecs.Resources.reset ecs.lockMask.Reset
+
+//@ lockexempt ecs.NewWorld constructs a new world (no pre-existing lock state)
+//@ lockexempt ecs.ResourceID registers a resource type in the resource registry, which is not structural and is allowed while locked
+//@ lockexempt ecs.ResourceTypeID registers a resource type (see ResourceID)
+//@ lockexempt ecs.AddResource registers a resource type (see ResourceID) and stores a resource; resources are independent of the lock (C20)
+//@ lockexempt ecs.GetResource registers a resource type on first use (see ResourceID)
+
+// ---------------------------------------------------------------------------------------------
+// C16 — component / resource type registry
+// ---------------------------------------------------------------------------------------------
+// reflect.Type values are compared by the identity of their payload pointer (all reflect.Type values
+// produced by package reflect are *rtype); isRelation's reflection predicate is an uninterpreted function.
+
+//@ uf isRelationType(tp reflect.Type) bool
+
+// lowBits(m, n): exactly the bits 0..n-1 of m are set (closed form per 64-bit word).
+//@ pred lowBitsWord(w uint64, n int, base int) bool =
+//@   (n >= base + 64 ==> w == ^uint64(0)) && (n <= base ==> w == 0) && (base < n && n < base + 64 ==> w == (uint64(1) << uint64(n - base)) - 1)
+//@ if !tiny
+//@ pred lowBits(m Mask, n int) bool = lowBitsWord(m.bits[0], n, 0) && lowBitsWord(m.bits[1], n, 64) && lowBitsWord(m.bits[2], n, 128) && lowBitsWord(m.bits[3], n, 192)
+//@ endif
+//@ if tiny
+//@ pred lowBits(m Mask, n int) bool = lowBitsWord(m.bits, n, 0)
+//@ endif
+//@ lemma lowBitsDef(m Mask, n int)
+//@   props C16
+//@   requires 0 <= n && n <= MaskTotalBits
+//@   ensures lowBits(m, n) == (forall! i uint8 :: validID(i) ==> specBit(m, i) == (int(i) < n))
+
+//@ pred regCount(r *componentRegistry) int = len(r.Components)
+
+//@ pred regInv(r *componentRegistry) bool =
+//@   r.Components != nil && 0 <= regCount(r) && regCount(r) <= MaskTotalBits && len(r.Types) == MaskTotalBits
+//@   && len(r.IDs) == regCount(r)
+//@   && (forall k int :: {r.IDs[k]} 0 <= k && k < regCount(r) ==> int(r.IDs[k]) == k)
+//@   && (forall t ref :: {mapHas(r.Components, t)} mapHas(r.Components, t) ==> int(r.Components[t]) < regCount(r) && r.Types[int(r.Components[t])].val == t)
+//@   && (forall i int :: {r.Types[i]} 0 <= i && i < regCount(r) ==> mapHas(r.Components, r.Types[i].val) && int(r.Components[r.Types[i].val]) == i)
+//@   && (forall i int :: {r.Types[i]} regCount(r) <= i && i < MaskTotalBits ==> r.Types[i] == nil)
+//@   && lowBits(r.Used, regCount(r)) && subset(r.IsRelation, r.Used)
+
+// regSame: the registry view (count, type->id map, id->type list, Used, IsRelation, IDs) equals the one at entry.
+//@ pred regSame(r *componentRegistry) bool =
+//@   regCount(r) == old(regCount(r))
+//@   && (forall t ref :: {mapHas(r.Components, t)} mapHas(r.Components, t) == old(mapHas(r.Components, t)) && (mapHas(r.Components, t) ==> r.Components[t] == old(r.Components[t])))
+//@   && (forall i int :: {r.Types[i].val} 0 <= i && i < MaskTotalBits ==> (r.Types[i] == nil) == old(r.Types[i] == nil) && (r.Types[i] != nil ==> r.Types[i].val == old(r.Types[i].val)))
+//@   && r.Used == old(r.Used) && r.IsRelation == old(r.IsRelation)
+//@   && len(r.IDs) == old(len(r.IDs)) && (forall k int :: {r.IDs[k]} 0 <= k && k < len(r.IDs) ==> r.IDs[k] == old(r.IDs[k]))
+
+//@ func componentRegistry.isRelation(r, tp) (res)
+//@   flag trusted
+//@   ensures res == isRelationType(tp)
+
+//@ func componentRegistry.Count(r) (n)
+//@   props C16
+//@   ensures n == regCount(r)
+
+//@ func componentRegistry.ComponentType(r, id) (tp, ok)
+//@   props C16
+//@   requires regInv(r) && validID(id)
+//@   ensures ok == (int(id) < regCount(r))
+//@   ensures tp == r.Types[int(id)]
+
+//@ func componentRegistry.registerComponent(r, tp, totalBits) (id)
+//@   props C16
+//@   requires regInv(r) && tp != nil && !mapHas(r.Components, tp.val) && 0 < totalBits && totalBits <= MaskTotalBits
+//@   panics_if regCount(r) >= totalBits
+//@   flag panic_clean
+//@   ensures regInv(r)
+//@   ensures int(id) == old(regCount(r)) && regCount(r) == old(regCount(r)) + 1
+//@   ensures mapHas(r.Components, tp.val) && r.Components[tp.val] == id
+//@   ensures forall t ref :: {mapHas(r.Components, t)} t != tp.val ==> mapHas(r.Components, t) == old(mapHas(r.Components, t)) && r.Components[t] == old(r.Components[t])
+//@   ensures forall i int :: {r.Types[i]} 0 <= i && i < MaskTotalBits && i != int(id) ==> r.Types[i] == old(r.Types[i])
+//@   ensures r.Types[int(id)] == tp
+//@   ensures specBit(r.IsRelation, id) == isRelationType(tp)
+//@   ensures forall! i uint8 :: i != id ==> specBit(r.IsRelation, i) == old(specBit(r.IsRelation, i))
+//@   ensures forall! i uint8 :: specBit(r.Used, i) == (old(specBit(r.Used, i)) || i == id)
+//@   ensures !old(specBit(r.Used, id)) && !old(specBit(r.IsRelation, id))
+//@   modifies r.Components[ALL], r.Types[ALL], r.Used.bits, r.IsRelation.bits, r.IDs, r.IDs[ALL]
+
+//@ func componentRegistry.ComponentID(r, tp) (id, isNew)
+//@   props C16
+//@   requires regInv(r) && tp != nil
+//@   panics_if !mapHas(r.Components, tp.val) && regCount(r) >= MaskTotalBits
+//@   flag panic_clean
+//@   ensures regInv(r)
+//@   ensures isNew == !old(mapHas(r.Components, tp.val))
+//@   ensures !isNew ==> id == old(r.Components[tp.val]) && regSame(r)
+//@   ensures isNew ==> int(id) == old(regCount(r)) && regCount(r) == old(regCount(r)) + 1 && specBit(r.IsRelation, id) == isRelationType(tp)
+//@   ensures mapHas(r.Components, tp.val) && r.Components[tp.val] == id && r.Types[int(id)].val == tp.val
+//@   ensures forall t ref :: {mapHas(r.Components, t)} t != tp.val ==> mapHas(r.Components, t) == old(mapHas(r.Components, t)) && r.Components[t] == old(r.Components[t])
+//@   ensures forall! i uint8 :: i != id ==> specBit(r.IsRelation, i) == old(specBit(r.IsRelation, i))
+//@   ensures forall! i uint8 :: specBit(r.Used, i) == (old(specBit(r.Used, i)) || (isNew && i == id))
+//@   ensures isNew ==> !old(specBit(r.Used, id)) && !old(specBit(r.IsRelation, id))
+//@   ensures forall i int :: {r.Types[i]} 0 <= i && i < MaskTotalBits && i != int(id) ==> r.Types[i] == old(r.Types[i])
+//@   modifies r.Components[ALL], r.Types[ALL], r.Used.bits, r.IsRelation.bits, r.IDs, r.IDs[ALL]
+
+//@ func componentRegistry.unregisterLastComponent(r)
+//@   props C16 C09
+//@   requires regInv(r) && regCount(r) > 0
+//@   hint regCount(r) == old(regCount(r)) - 1
+//@   ensures regInv(r) && regCount(r) == old(regCount(r)) - 1
+//@   ensures forall t ref :: {mapHas(r.Components, t)} t != old(r.Types[regCount(r) - 1]).val ==> mapHas(r.Components, t) == old(mapHas(r.Components, t)) && r.Components[t] == old(r.Components[t])
+//@   ensures !mapHas(r.Components, old(r.Types[regCount(r) - 1]).val)
+//@   ensures forall i int :: {r.Types[i]} 0 <= i && i < MaskTotalBits && i != regCount(r) ==> r.Types[i] == old(r.Types[i])
+//@   ensures r.Types[regCount(r)] == nil
+//@   ensures forall! i uint8 :: specBit(r.IsRelation, i) == (old(specBit(r.IsRelation, i)) && i != uint8(old(regCount(r)) - 1))
+//@   ensures len(r.IDs) == regCount(r) && (forall k int :: {r.IDs[k]} 0 <= k && k < len(r.IDs) ==> r.IDs[k] == old(r.IDs[k]))
+//@   modifies r.Components[ALL], r.Types[ALL], r.Used.bits, r.IsRelation.bits, r.IDs
+
+//@ func newComponentRegistry() (r)
+//@   props C16
+//@   ensures r.Components != nil && len(r.Components) == 0 && len(r.Types) == MaskTotalBits && len(r.IDs) == 0
+//@   ensures maskEmpty(r.Used) && maskEmpty(r.IsRelation)
+//@   ensures forall i int :: {r.Types[i]} 0 <= i && i < MaskTotalBits ==> r.Types[i] == nil
+//@   ensures forall t ref :: !mapHas(r.Components, t)
+
+//@ func World.extendArchetypeLayouts(w, count)
+//@   flag trusted nodirty
+//@   modifies all(archetypeData.layouts), all(archetypeAccess.basePointer)
+
+//@ func World.componentID(w, tp) (r)
+//@   props C16 C09
+//@   requires regInv(&w.registry) && tp != nil
+//@   panics_if !mapHas(w.registry.Components, tp.val) && (isLocked(w) || regCount(&w.registry) >= MaskTotalBits)
+//@   flag panic_restores
+//@   on_panic regSame(&w.registry) && regInv(&w.registry)
+//@   dirty_unless mapHas(w.registry.Components, tp.val)
+//@   ensures regInv(&w.registry)
+//@   ensures old(mapHas(w.registry.Components, tp.val)) ==> r.id == old(w.registry.Components[tp.val]) && regSame(&w.registry)
+//@   ensures !old(mapHas(w.registry.Components, tp.val)) ==> int(r.id) == old(regCount(&w.registry)) && regCount(&w.registry) == old(regCount(&w.registry)) + 1
+//@        && specBit(w.registry.IsRelation, r.id) == isRelationType(tp)
+//@   ensures mapHas(w.registry.Components, tp.val) && w.registry.Components[tp.val] == r.id && w.registry.Types[int(r.id)].val == tp.val
+//@   ensures forall t ref :: {mapHas(w.registry.Components, t)} t != tp.val ==> mapHas(w.registry.Components, t) == old(mapHas(w.registry.Components, t)) && w.registry.Components[t] == old(w.registry.Components[t])
+//@   ensures forall! i uint8 :: i != r.id ==> specBit(w.registry.IsRelation, i) == old(specBit(w.registry.IsRelation, i))
+//@   modifies w.registry.Components[ALL], w.registry.Types[ALL], w.registry.Used.bits, w.registry.IsRelation.bits, w.registry.IDs, w.registry.IDs[ALL], all(archetypeData.layouts), all(archetypeAccess.basePointer)
+
+// The callback Cache.getArchetypes is always World.getArchetypes (installed by World.Cache()); it only reads the world.
+//@ iface Cache.getArchetypes(c, f) (r)
+//@   flag trusted allocates
